@@ -144,7 +144,7 @@ func generate(prog *ssa.Program, db *ContractDB, fn *ssa.Function, fc *FuncContr
 	} else {
 		cv := c.oblige("cover", shortFn(fn)+"#cover:return", ex.reach, tTrue, "")
 		cv.Cover = true
-		post := &Env{c: c, vars: map[string]Val{}, st: ex.st, old: entry, pkg: f.contractPkg()}
+		post := &Env{c: c, vars: map[string]Val{}, st: ex.st, old: entry, pkg: f.contractPkg(), res: f.resLookup}
 		for k, v := range f.params {
 			post.vars[k] = v
 		}
